@@ -8,6 +8,7 @@ CONSTANTS
   MaxTime = 3
   Duration = 2
   Lease = 1
+  ImportOn = TRUE
   MaxRec = 2
   Bug = {}
   GenMode = "C06"
